@@ -1,7 +1,9 @@
 // Package gnet drives the real route.GrafanaNet (C17) against an httptest
 // server that answers every POST with the next outcome of a scripted fault
 // sequence (2xx / 4xx / 5xx / hang until the client gives up / connection
-// reset) and decodes the snappy + msgp bodies into points.  It only records
+// reset / failure status and headers, then a response body that stalls or
+// trickles until the client gives up) and decodes the snappy + msgp bodies
+// into points.  It only records
 // events; the verdict is taken by TLC on the recorded trace
 // (spec/GrafanaNetTrace.tla).
 package gnet
@@ -54,7 +56,7 @@ type scenario struct {
 	NDisp     int      `json:"ndisp"` // dispatcher goroutines; series s belongs to dispatcher s % ndisp
 	Names     []string `json:"names"` // series index -> metric name
 	Steps     []step   `json:"steps"`
-	Faults    []string `json:"faults"`  // outcome of the i-th POST: "200", "400", "429", "500", "503", "timeout", "reset"; afterwards 200
+	Faults    []string `json:"faults"`  // outcome of the i-th POST: "200", "400", "429", "500", "503", "timeout", "reset", "500stall", "503stall", "500trickle"; afterwards 200
 	Quiesce   bool     `json:"quiesce"` // wait for everything to be acknowledged before Shutdown
 	Shutdown  bool     `json:"shutdown"`
 	// shutdown of a backed-up blocking route (after the steps): the endpoint answers every POST with PileCode
@@ -72,6 +74,7 @@ const (
 	quiesceDeadline = 30 * time.Second // everything accepted must be acknowledged by then (normal: a few flushMaxWait)
 	shutdownLimit   = 20 * time.Second // Shutdown must have returned by then (normal: milliseconds to a few failed attempts)
 	holdCap         = 60 * time.Second
+	stallCap        = 150 * time.Second // a stalled / trickling response body ends when the client gives up, when the scenario ends, or (safety net, beyond every deadline above) after this
 	harnessDeadline = 20 * time.Second // the driver's own waits for goroutine states (normal: milliseconds); missing one is a harness event, never a verdict
 )
 
@@ -105,12 +108,19 @@ type fakeGW struct {
 	acked    map[int]bool
 	names    map[string]int
 	bad      int32
+	tick     time.Duration // pause between two bytes of a trickling response body (a fraction of the route's timeout)
+	quit     chan struct{} // closed when the scenario has ended: stalled bodies are let go, so that the server can close
 }
 
 func classOf(code string) string {
 	switch code {
 	case "timeout", "reset":
 		return code
+	}
+	if strings.HasSuffix(code, "stall") || strings.HasSuffix(code, "trickle") {
+		// <status>stall / <status>trickle: the status line, the headers and the beginning of the body arrive, the
+		// rest of the body never does (stall) or a byte at a time for longer than any timeout (trickle)
+		return "stall"
 	}
 	return code[:1] + "xx"
 }
@@ -186,6 +196,10 @@ func (g *fakeGW) ServeHTTP(w http.ResponseWriter, r *http.Request) {
 		}
 		return
 	}
+	if classOf(code) == "stall" {
+		g.stalledBody(w, r, code)
+		return
+	}
 	n, _ := strconv.Atoi(code)
 	if n >= 200 && n < 300 {
 		w.Header().Set("Content-Type", "application/json")
@@ -195,6 +209,43 @@ func (g *fakeGW) ServeHTTP(w http.ResponseWriter, r *http.Request) {
 	}
 	w.WriteHeader(n)
 	fmt.Fprintf(w, "scripted failure %s", code)
+}
+
+// failure status line + headers + the beginning of an error body, flushed; then the connection stays open and the
+// rest of the body does not come (or comes one byte per tick) until the client gives up on the request
+func (g *fakeGW) stalledBody(w http.ResponseWriter, r *http.Request, code string) {
+	trickle := strings.HasSuffix(code, "trickle")
+	n, _ := strconv.Atoi(strings.TrimSuffix(strings.TrimSuffix(code, "stall"), "trickle"))
+	fl, ok := w.(http.Flusher)
+	if !ok {
+		panic("no flusher")
+	}
+	if !trickle {
+		w.Header().Set("Content-Length", "4096")
+	}
+	w.WriteHeader(n)
+	fmt.Fprintf(w, "scripted failure %s: ", code)
+	fl.Flush()
+	end := time.After(stallCap)
+	for {
+		var tk <-chan time.Time
+		if trickle {
+			tk = time.After(g.tick)
+		}
+		select {
+		case <-r.Context().Done(): // the client gave up on this request
+			return
+		case <-g.quit:
+			return
+		case <-end:
+			return
+		case <-tk:
+			if _, err := w.Write([]byte(".")); err != nil {
+				return
+			}
+			fl.Flush()
+		}
+	}
 }
 
 func (g *fakeGW) nAcked() int {
@@ -331,9 +382,14 @@ func runScenario(t *testing.T, sc scenario, sf, af string, progress *hx.Log) []e
 	for i, n := range sc.Names {
 		names[n] = i
 	}
-	gw := &fakeGW{rec: rec, faults: sc.Faults, acked: map[int]bool{}, names: names}
+	tick := time.Duration(sc.TimeoutMs) * time.Millisecond / 5
+	if tick < time.Millisecond {
+		tick = time.Millisecond
+	}
+	gw := &fakeGW{rec: rec, faults: sc.Faults, acked: map[int]bool{}, names: names, tick: tick, quit: make(chan struct{})}
 	srv := httptest.NewServer(gw)
 	defer srv.Close()
+	defer close(gw.quit) // (runs before srv.Close, which waits for the handlers)
 
 	addr := fmt.Sprintf("%s/k%d/metrics", srv.URL, sc.K)
 	cfg, err := route.NewGrafanaNetConfig(addr, "key", sf, af)
